@@ -271,3 +271,1205 @@ Proof.
   destruct (enqueue_refines _ _ req_ack OwSmLib (Some (a_next a)) HR2) as (st3 & He3 & HR3).
   rewrite He3. cbn [bind fst]. eauto.
 Qed.
+
+(* ================================================================== refinement: queue length *)
+Lemma entry_of_fields : forall i n e, entry_of i n = e ->
+  e_id e = i /\ n_owner n = e_owner e /\ n_data n = e_data e /\ n_written n = e_sent e /\ n_wip n = e_wip e /\
+  n_userdata n = e_link e /\ n_smh n = e_smh e.
+Proof. intros. subst. cbn. repeat split; auto. Qed.
+
+Lemma qlen_refines : forall st a, Refines st a -> op_qlen st = Ok (a_qlen a).
+Proof.
+  intros st a HR. dR HR. unfold op_qlen, a_qlen.
+  destruct (a_q a) as [|e r] eqn:Eq; cbn in Hhd; rewrite Hhd.
+  - now rewrite Hulen.
+  - cbn [lseg] in Hq. destruct Hq as (n & Hn & He & _).
+    rewrite (load_live _ _ _ Hn). cbn [bind].
+    apply entry_of_fields in He. destruct He as (_ & Ho & _ & _ & Hw & _).
+    unfold e_user. rewrite Hw, Ho, Hulen. destruct (e_wip e && is_user (e_owner e)); reflexivity.
+Qed.
+
+(* ================================================================== refinement: appending to the SM queue *)
+Lemma smq_add_back_ok : forall st h item nitem smq e2,
+  lseg h None smq None -> s_smq_head st = hd_id smq None -> s_smq_tail st = last_id smq None ->
+  h item = Live nitem -> (forall x, In x smq -> e_id x <> item) -> NoDup (map e_id smq) ->
+  entry_of item nitem = e2 ->
+  exists h', smq_add_back st h item = Ok (h', hd_id (smq ++ [e2]) None, Some item) /\
+             lseg h' None (smq ++ [e2]) None /\
+             (forall y, y <> item -> (forall x, In x smq -> e_id x <> y) -> h' y = h y) /\
+             (forall y, h y = Unalloc -> h' y = Unalloc).
+Proof.
+  intros st h item nitem smq e2 Hs Hhd Htl Hit Hne Hnd He2.
+  assert (Hid : e_id e2 = item) by (subst e2; reflexivity).
+  unfold smq_add_back.
+  rewrite (store_live _ _ _ _ Hit). cbn [bind].
+  destruct (list_snoc_cases _ smq) as [Hnil|(l & lst & Hl)].
+  - subst smq. cbn in Htl, Hhd. rewrite Htl.
+    erewrite store_live by apply upd_same. cbn [bind].
+    eexists. split; [|split; [|split]].
+    + cbn. rewrite Hid. reflexivity.
+    + cbn [app lseg hd_id]. eexists. rewrite Hid, upd_same. repeat split; auto.
+    + intros y Hy _. rewrite !upd_other by auto. reflexivity.
+    + intros y Hy. assert (y <> item) by (intro; subst; congruence). rewrite !upd_other by auto. auto.
+  - subst smq. rewrite last_id_snoc in Htl. rewrite Htl.
+    destruct (lseg_mid l lst [] _ _ _ Hs) as (nl & Hnl & Henl & Hpl & Hxl).
+    assert (Hlst : e_id lst <> item) by (apply Hne, in_or_app; cbn; auto).
+    erewrite store_live by apply upd_same. cbn [bind].
+    erewrite store_live by (rewrite !upd_other by exact Hlst; exact Hnl). cbn [bind].
+    eexists. split; [|split; [|split]].
+    + rewrite hd_id_app. rewrite hd_id_app in Hhd. cbn [hd_id] in *. rewrite Hhd.
+      destruct l; reflexivity.
+    + apply lseg_app. split.
+      * cbn [hd_id]. rewrite Hid. eapply lseg_set_last_next; eauto.
+        -- eapply lseg_frame; [|exact Hs]. intros x Hx. rewrite !upd_other by (apply Hne; auto). reflexivity.
+        -- rewrite !upd_other by exact Hlst. exact Hnl.
+      * cbn [lseg hd_id]. eexists. rewrite Hid. rewrite upd_other by congruence. rewrite upd_same.
+        repeat split; auto. cbn. now rewrite last_id_snoc.
+    + intros y Hy Hys. rewrite upd_other. { rewrite !upd_other by auto. reflexivity. }
+      intro; subst y. apply (Hys lst); auto. apply in_or_app; cbn; auto.
+    + intros y Hy. assert (y <> item) by (intro; subst; congruence).
+      assert (y <> e_id lst) by (intro; subst; congruence). rewrite !upd_other by auto. auto.
+Qed.
+
+(* ================================================================== refinement: the write loop *)
+(* the old head [e] has left the queue (freed or moved); the new head's prev is cleared *)
+Lemma pop_head_fix : forall st a e r h4 smq' qh' qt' nr' sched' wire' log' ulen',
+  Refines st a -> a_q a = e :: r ->
+  lseg h4 None smq' None -> qh' = hd_id smq' None -> qt' = last_id smq' None ->
+  (forall x, In x r -> h4 (e_id x) = s_heap st (e_id x)) ->
+  (forall y, (s_next st <= y)%nat -> h4 y = Unalloc) ->
+  NoDup (map e_id (r ++ smq')) ->
+  ulen' = Z.of_nat (count_user r) ->
+  exists h5,
+    match hd_id r None with
+    | None => Ok h4
+    | Some x => if fix_c06_1 then store h4 x (with_prev None) else Ok h4
+    end = Ok h5 /\
+    Refines (mkSt h5 (s_next st) (hd_id r None) (match hd_id r None with None => None | Some _ => s_tail st end)
+                  (s_len st - 1) ulen' (s_sm_enabled st) (s_r_sent st) nr' qh' qt' (s_connected st) sched' wire')
+            (mkA r smq' (a_next a) (a_sm_enabled a) (a_r_sent a) nr' (a_connected a) sched' wire' log').
+Proof.
+  intros st a e r h4 smq' qh' qt' nr' sched' wire' log' ulen' HR Eq Hs4 Hqh Hqt Hfr Hun Hnd4 Hul.
+  dR HR. rewrite Eq in *. cbn [lseg] in Hq. destruct Hq as (n & Hn & He & Hp & Hx & Hr).
+  destruct r as [|x r'].
+  - cbn [hd_id]. eexists. split; [reflexivity|].
+    unfold Refines. projs. cbn in Hlen. repeat split; auto. cbn. lia.
+  - cbn [hd_id]. cbn [lseg] in Hr. destruct Hr as (nx & Hnx & Hex & Hpx & Hxx & Hr').
+    assert (H4x : h4 (e_id x) = Live nx) by (rewrite Hfr by (cbn; auto); exact Hnx).
+    unfold fix_c06_1. rewrite (store_live _ _ _ _ H4x).
+    eexists. split; [reflexivity|].
+    unfold Refines. projs.
+    assert (Hndr : NoDup (map e_id (x :: r'))) by (eapply nodup_ids_l; eauto).
+    repeat split; auto.
+    + eapply lseg_set_first_prev with (p := Some (e_id e)); eauto.
+      cbn [lseg]. exists nx. repeat split; auto.
+      eapply lseg_frame; [|exact Hr']. intros y Hy. apply Hfr. cbn; auto.
+    + eapply lseg_frame; [|exact Hs4]. intros y Hy. apply upd_other.
+      intro Heq. eapply (nodup_ids_disj _ _ x y Hnd4); cbn; auto.
+    + intros y Hy. rewrite upd_other; auto.
+      pose proof (live_below st (e_id x) nx Hfresh Hnx). lia.
+    + cbn [length] in *. lia.
+Qed.
+
+Lemma entry_progress : forall i n w, entry_of i (with_progress w n) = progress (entry_of i n) w.
+Proof. reflexivity. Qed.
+Lemma entry_smh : forall i n h, entry_of i (with_smh h n) = set_smh (entry_of i n) h.
+Proof. reflexivity. Qed.
+
+Lemma count_user_cons : forall e r, Z.of_nat (count_user (e :: r)) = (if e_user e then 1 else 0) + Z.of_nat (count_user r).
+Proof. intros. unfold count_user. cbn. destruct (e_user e); cbn [length]; lia. Qed.
+
+Lemma write_loop_refines : forall q st a err fuel,
+  Refines st a -> a_q a = q -> (length q < fuel)%nat ->
+  exists st', write_loop fuel st (s_head st) err = Ok (st', snd (a_loop q a err)) /\
+              Refines st' (fst (a_loop q a err)).
+Proof.
+  induction q as [|e r IH]; intros st a err fuel HR Eq Hfuel.
+  - pose proof HR as HR'. dR HR'. rewrite Eq in *. cbn in Hhd. rewrite Hhd.
+    destruct fuel; cbn [write_loop a_loop fst snd]; (eexists; split; [reflexivity|]);
+      unfold Refines; projs; repeat split; auto.
+  - destruct fuel as [|f]; [cbn in Hfuel; lia|].
+    pose proof HR as HR'. dR HR'. rewrite Eq in *. cbn [hd_id] in Hhd. rewrite Hhd.
+    cbn [lseg] in Hq. destruct Hq as (n & Hn & He & Hp & Hx & Hr).
+    pose proof (entry_of_fields _ _ _ He) as (_ & Ho & Hd & Hw & Hwip & Hud & Hsmh).
+    cbn [write_loop a_loop]. rewrite (load_live _ _ _ Hn). cbn [bind].
+    rewrite Hd, Hw, Hsched.
+    destruct (pop_sched (a_sched a)) as [res sched'].
+    destruct (write_result res (length (e_data e) - e_sent e)) as [ret er].
+    set (w' := match ret with
+               | Some k => if (Nat.ltb 0 k && Nat.ltb k (length (e_data e) - e_sent e))%bool then (e_sent e + k)%nat else e_sent e
+               | None => e_sent e end).
+    set (acc := match ret with Some k => k | None => O end).
+    rewrite (store_live _ _ _ _ Hn). cbn [bind].
+    assert (Hndq : NoDup (map e_id (e :: r))) by (eapply nodup_ids_l; eauto).
+    assert (Hne_r : forall x, In x r -> e_id x <> e_id e).
+    { intros x Hxr Heq. inversion Hndq; subst. apply H1. rewrite <- Heq. now apply in_ids. }
+    assert (Hne_s : forall x, In x (a_smq a) -> e_id x <> e_id e).
+    { intros x Hxs Heq. eapply (nodup_ids_disj _ _ e x Hnd); cbn; auto. }
+    destruct (match ret with Some k => Nat.eqb k (length (e_data e) - e_sent e) | None => false end) eqn:Ecomp;
+      cbn [negb].
+    + (* element complete: it leaves the queue *)
+      rewrite Ho, Hsm, Hx, Hwire, Hnr.
+      assert (Hul' : (if is_user (e_owner e) then s_ulen st - 1 else s_ulen st) = Z.of_nat (count_user r)).
+      { rewrite Hulen, count_user_cons. unfold e_user. destruct (is_user (e_owner e)); lia. }
+      rewrite Hul'.
+      destruct (negb (is_sm (e_owner e)) && a_sm_enabled a) eqn:Ecnt.
+      * (* moved to the SM queue *)
+        erewrite store_live by apply upd_same. cbn [bind].
+        set (n2 := with_smh (a_sent_nr a) (with_progress w' n)).
+        set (e2 := set_smh (progress e w') (a_sent_nr a)).
+        assert (He2 : entry_of (e_id e) n2 = e2).
+        { unfold n2, e2. rewrite entry_smh, entry_progress, He. reflexivity. }
+        set (h2 := upd (upd (s_heap st) (e_id e) (Live (with_progress w' n))) (e_id e) (Live n2)).
+        assert (Hs2 : lseg h2 None (a_smq a) None).
+        { eapply lseg_frame; [|exact Hsq]. intros x Hxs. unfold h2. rewrite !upd_other by (apply Hne_s; auto). reflexivity. }
+        destruct (smq_add_back_ok st h2 (e_id e) n2 (a_smq a) e2 Hs2 Hshd Hstl) as (h3 & Hadd & Hs3 & Hfr3 & Hun3);
+          auto.
+        { unfold h2. apply upd_same. }
+        { eapply nodup_ids_r; eauto. }
+        rewrite Hadd. cbn [bind].
+        assert (Hnd4 : NoDup (map e_id (r ++ a_smq a ++ [e2]))).
+        { eapply Permutation_NoDup; [|exact Hnd].
+          assert (Hide : e_id e2 = e_id e) by reflexivity.
+          cbn [app map]. rewrite !map_app. cbn [map]. rewrite Hide.
+          rewrite app_assoc. apply Permutation_cons_append. }
+        edestruct (pop_head_fix st a e r h3 (a_smq a ++ [e2]) (hd_id (a_smq a ++ [e2]) None) (Some (e_id e))
+                     (w32 (a_sent_nr a + 1)) sched'
+                     (a_wire a ++ map (pair (e_id e)) (firstn acc (skipn (e_sent e) (e_data e))))
+                     (log_set (a_log a) e2 Done) (Z.of_nat (count_user r)) HR Eq Hs3) as (h5 & Hfix & HR5); auto.
+        { now rewrite last_id_snoc. }
+        { intros x Hxr. rewrite Hfr3.
+          - unfold h2. rewrite !upd_other by (apply Hne_r; auto). reflexivity.
+          - apply Hne_r; auto.
+          - intros y Hy Heq. eapply (nodup_ids_disj _ _ x y Hnd); cbn; auto. }
+        { intros y Hy. apply Hun3. unfold h2.
+          pose proof (live_below st (e_id e) n Hfresh Hn). rewrite !upd_other by lia. auto. }
+        rewrite Hfix. cbn [bind].
+        destruct (IH _ _ (err || er)%bool f HR5 eq_refl) as (st' & Hloop & HR').
+        { cbn in Hfuel. lia. }
+        cbn [s_head] in Hloop. rewrite Hsm in Hloop.
+        exists st'. split; [exact Hloop|exact HR'].
+      * (* freed *)
+        cbn [bind].
+        edestruct (pop_head_fix st a e r (upd (upd (s_heap st) (e_id e) (Live (with_progress w' n))) (e_id e) Freed)
+                     (a_smq a) (s_smq_head st) (s_smq_tail st)
+                     (a_sent_nr a) sched'
+                     (a_wire a ++ map (pair (e_id e)) (firstn acc (skipn (e_sent e) (e_data e))))
+                     (log_set (a_log a) (progress e w') Done) (Z.of_nat (count_user r)) HR Eq) as (h5 & Hfix & HR5); auto.
+        { eapply lseg_frame; [|exact Hsq]. intros x Hxs. rewrite !upd_other by (apply Hne_s; auto). reflexivity. }
+        { intros x Hxr. rewrite !upd_other by (apply Hne_r; auto). reflexivity. }
+        { intros y Hy. pose proof (live_below st (e_id e) n Hfresh Hn). rewrite !upd_other by lia. auto. }
+        { cbn [app map] in Hnd. inversion Hnd; auto. }
+        rewrite Hfix. cbn [bind].
+        destruct (IH _ _ (err || er)%bool f HR5 eq_refl) as (st' & Hloop & HR').
+        { cbn in Hfuel. lia. }
+        cbn [s_head] in Hloop. rewrite Hsm in Hloop.
+        exists st'. split; [exact Hloop|exact HR'].
+    + (* incomplete: stop here *)
+      eexists. split; [rewrite Hwire; reflexivity|].
+      cbn [fst]. unfold Refines. projs.
+      repeat split; auto.
+      * eapply lseg_update_first with (e := e) (f := with_progress w'); eauto.
+        -- cbn [lseg]. exists n. repeat split; auto.
+        -- rewrite entry_progress, He. reflexivity.
+      * eapply lseg_frame; [|exact Hsq]. intros x Hxs. apply upd_other. apply Hne_s; auto.
+      * intros y Hy. pose proof (live_below st (e_id e) n Hfresh Hn). rewrite upd_other by lia. auto.
+      * rewrite Hulen. rewrite !count_user_cons. reflexivity.
+Qed.
+
+Lemma queue_length_bound : forall st a, Refines st a -> (length (a_q a) <= s_next st)%nat.
+Proof.
+  intros st a HR. dR HR. rewrite <- (map_length e_id). apply NoDup_bounded_length.
+  - eapply nodup_ids_l; eauto.
+  - intros x Hx. apply in_map_iff in Hx. destruct Hx as (e & <- & He). eapply (lseg_ids_below _ _ _ _ _ Hq Hfresh); auto.
+Qed.
+Lemma smq_length_bound : forall st a, Refines st a -> (length (a_smq a) <= s_next st)%nat.
+Proof.
+  intros st a HR. dR HR. rewrite <- (map_length e_id). apply NoDup_bounded_length.
+  - eapply nodup_ids_r; eauto.
+  - intros x Hx. apply in_map_iff in Hx. destruct Hx as (e & <- & He). eapply (lseg_ids_below _ _ _ _ _ Hsq Hfresh); auto.
+Qed.
+
+Lemma disconnect_refines : forall st a, Refines st a -> Refines (disconnect st) (a_disconnect a).
+Proof. intros st a HR. dR HR. unfold Refines, disconnect, a_disconnect. projs. repeat split; auto. Qed.
+
+Lemma iter_refines : forall st a, Refines st a ->
+  exists st', op_iter st = Ok (st', snd (a_iter a)) /\ Refines st' (fst (a_iter a)).
+Proof.
+  intros st a HR. unfold op_iter, a_iter.
+  assert (Hc : s_connected st = a_connected a) by (dR HR; auto). rewrite Hc.
+  destruct (a_connected a); [|eauto].
+  destruct (write_loop_refines (a_q a) st a false (S (s_next st)) HR eq_refl) as (st1 & Hl & HR1).
+  { pose proof (queue_length_bound _ _ HR). lia. }
+  rewrite Hl. cbn [bind].
+  destruct (a_loop (a_q a) a false) as [a1 err]. cbn [fst snd] in *.
+  destruct err; eexists; (split; [reflexivity|]); cbn [fst]; auto using disconnect_refines.
+Qed.
+
+(* ================================================================== refinement: server ack *)
+Lemma ack_loop_refines : forall ack smq h qh qt fuel,
+  lseg h None smq None -> qh = hd_id smq None -> qt = last_id smq None -> NoDup (map e_id smq) ->
+  (length smq < fuel)%nat ->
+  exists h', smq_ack_loop fuel h qh qt ack = Ok (h', hd_id (ack_drop smq ack) None, last_id (ack_drop smq ack) None) /\
+             lseg h' None (ack_drop smq ack) None /\
+             (forall y, (forall x, In x smq -> e_id x <> y) -> h' y = h y) /\
+             (forall y, h y = Unalloc -> h' y = Unalloc).
+Proof.
+  induction smq as [|e r IH]; intros h qh qt fuel Hs Hqh Hqt Hnd Hfuel.
+  - subst. cbn. destruct fuel; cbn; eexists; repeat split; auto.
+  - destruct fuel as [|f]; [cbn in Hfuel; lia|]. subst qh qt.
+    cbn [lseg] in Hs. destruct Hs as (n & Hn & He & Hp & Hx & Hr).
+    pose proof (entry_of_fields _ _ _ He) as (_ & _ & _ & _ & _ & _ & Hsmh).
+    cbn [smq_ack_loop hd_id ack_drop]. rewrite (load_live _ _ _ Hn). cbn [bind]. rewrite Hsmh.
+    destruct (e_smh e <? ack) eqn:Elt.
+    + rewrite Hx.
+      assert (Hne_r : forall x, In x r -> e_id x <> e_id e).
+      { intros x Hxr Heq. inversion Hnd; subst. apply H1. rewrite <- Heq. now apply in_ids. }
+      assert (Hndr : NoDup (map e_id r)) by (inversion Hnd; auto).
+      destruct r as [|x r'].
+      * cbn [hd_id bind]. rewrite (store_live _ _ _ _ Hn). cbn [bind].
+        destruct (IH (upd (upd h (e_id e) (Live (with_next None (with_prev None n)))) (e_id e) Freed) None None f)
+          as (h' & Hl & Hs' & Hfr & Hun); auto; try exact I.
+        { cbn in *. lia. }
+        exists h'. split; [exact Hl|]. split; [exact Hs'|]. split.
+        -- intros y Hy. rewrite Hfr by (intros ? []).
+           assert (y <> e_id e) by (intro; subst; apply (Hy e); cbn; auto). rewrite !upd_other; auto.
+        -- intros y Hy. apply Hun. assert (y <> e_id e) by (intro; subst; congruence). rewrite !upd_other; auto.
+      * cbn [hd_id]. cbn [lseg] in Hr. destruct Hr as (nx & Hnx & Hex & Hpx & Hxx & Hr').
+        rewrite (store_live _ _ _ _ Hnx). cbn [bind].
+        assert (Hxe : e_id x <> e_id e) by (apply Hne_r; cbn; auto).
+        erewrite store_live by (rewrite upd_other by congruence; exact Hn). cbn [bind].
+        set (h3 := upd (upd (upd h (e_id x) (Live (with_prev None nx))) (e_id e)
+                             (Live (with_next None (with_prev None n)))) (e_id e) Freed).
+        destruct (IH h3 (Some (e_id x)) (last_id (e :: x :: r') None) f) as (h' & Hl & Hs' & Hfr & Hun); auto.
+        { unfold h3. eapply lseg_frame with (h := upd h (e_id x) (Live (with_prev None nx))).
+          - intros y Hy. rewrite !upd_other by (apply Hne_r; auto). reflexivity.
+          - eapply lseg_set_first_prev with (p := Some (e_id e)); eauto.
+            cbn [lseg]. exists nx. repeat split; auto. }
+        { cbn in *. lia. }
+        exists h'. split; [exact Hl|]. split; [exact Hs'|]. split.
+        -- intros y Hy. rewrite Hfr by (intros z Hz; apply Hy; cbn; auto).
+           assert (y <> e_id e) by (intro; subst; apply (Hy e); cbn; auto).
+           assert (y <> e_id x) by (intro; subst; apply (Hy x); cbn; auto).
+           unfold h3. rewrite !upd_other; auto.
+        -- intros y Hy. apply Hun. unfold h3.
+           assert (y <> e_id e) by (intro; subst; congruence).
+           assert (y <> e_id x) by (intro; subst; congruence). rewrite !upd_other; auto.
+    + exists h. split; [reflexivity|]. split; [|split; auto].
+      cbn [lseg]. exists n. repeat split; auto.
+Qed.
+
+Lemma NoDup_app_drop_mid : forall A (l1 p l3 : list A), NoDup (l1 ++ p ++ l3) -> NoDup (l1 ++ l3).
+Proof.
+  induction l1; cbn; intros.
+  - eapply NoDup_app_r; eauto.
+  - inversion H; subst. constructor; [|eauto].
+    intro Hin. apply H2. apply in_app_or in Hin. apply in_or_app. destruct Hin; auto. right. apply in_or_app; auto.
+Qed.
+
+Lemma ack_drop_incl : forall ack l x, In x (ack_drop l ack) -> In x l.
+Proof. induction l; cbn; intros; auto. destruct (e_smh a <? ack); auto. Qed.
+Lemma ack_drop_suffix : forall ack l, exists p, l = p ++ ack_drop l ack.
+Proof.
+  induction l as [|e r IH]; cbn. - exists []; auto.
+  - destruct (e_smh e <? ack). + destruct IH as (p & Hp). exists (e :: p). cbn. congruence. + exists []. auto.
+Qed.
+
+Lemma ack_refines : forall st a h, Refines st a -> exists st', op_ack st h = Ok st' /\ Refines st' (a_ack a h).
+Proof.
+  intros st a ack HR. unfold op_ack, a_ack. pose proof HR as HR'. dR HR'. rewrite Hconn, Hsm.
+  destruct (a_connected a && a_sm_enabled a); [|eauto].
+  destruct (ack_loop_refines ack (a_smq a) (s_heap st) (s_smq_head st) (s_smq_tail st) (S (s_next st)))
+    as (h' & Hl & Hs' & Hfr & Hun); auto.
+  { eapply nodup_ids_r; eauto. }
+  { pose proof (smq_length_bound _ _ HR). lia. }
+  rewrite Hl. cbn [bind]. eexists. split; [reflexivity|].
+  unfold Refines. projs. repeat split; auto.
+  - eapply lseg_frame; [|exact Hq]. intros x Hx. apply Hfr. intros y Hy Heq.
+    eapply (nodup_ids_disj _ _ x y Hnd); eauto.
+  - destruct (ack_drop_suffix ack (a_smq a)) as (p & Hp).
+    rewrite Hp in Hnd. rewrite !map_app in Hnd. rewrite map_app.
+    eapply NoDup_app_drop_mid; eauto.
+Qed.
+
+(* ================================================================== refinement: dropping *)
+Lemma split_first_spec : forall l a t b, split_first l = Some (a, t, b) ->
+  l = a ++ t :: b /\ e_user t = true /\ Forall (fun x => e_user x = false) a.
+Proof.
+  induction l as [|e r IH]; intros a t b H; cbn in H; [discriminate|].
+  destruct (e_user e) eqn:Eu.
+  - inversion H; subst. repeat split; auto.
+  - destruct (split_first r) as [[[a' t'] b']|] eqn:Es; [|discriminate]. inversion H; subst.
+    destruct (IH _ _ _ eq_refl) as (-> & Ht & Ha). repeat split; auto.
+Qed.
+Lemma split_first_none : forall l, split_first l = None -> Forall (fun x => e_user x = false) l.
+Proof.
+  induction l as [|e r IH]; intros H; cbn in H; [constructor|].
+  destruct (e_user e) eqn:Eu; [discriminate|]. destruct (split_first r) as [[[a' t'] b']|]; [discriminate|].
+  constructor; auto.
+Qed.
+Lemma split_last_snoc : forall l e, split_last (l ++ [e]) =
+  if e_user e then Some (l, e, [])
+  else match split_last l with Some (a, t, b) => Some (a, t, b ++ [e]) | None => None end.
+Proof.
+  intros. unfold split_last. rewrite rev_app_distr. cbn. destruct (e_user e).
+  - cbn. now rewrite rev_involutive.
+  - destruct (split_first (rev l)) as [[[a t] b]|]; cbn; auto.
+Qed.
+Lemma split_last_spec : forall l a t b, split_last l = Some (a, t, b) ->
+  l = a ++ t :: b /\ e_user t = true /\ Forall (fun x => e_user x = false) b.
+Proof.
+  intros l a t b H. unfold split_last in H.
+  destruct (split_first (rev l)) as [[[a' t'] b']|] eqn:Es; [|discriminate]. inversion H; subst.
+  destruct (split_first_spec _ _ _ _ Es) as (Hl & Ht & Ha). repeat split; auto.
+  - rewrite <- (rev_involutive l), Hl, rev_app_distr. cbn. now rewrite <- app_assoc.
+  - apply Forall_forall. intros x Hx. rewrite Forall_forall in Ha. apply Ha. now apply in_rev.
+Qed.
+
+Lemma search_back_ok : forall l h nx fuel, lseg h None l nx -> (length l < fuel)%nat ->
+  search_back fuel h (last_id l None) =
+  Ok (match split_last l with Some (_, t, _) => Some (e_id t) | None => None end).
+Proof.
+  induction l as [|e l IH] using rev_ind; intros h nx fuel Hs Hf.
+  - cbn. destruct fuel; reflexivity.
+  - rewrite last_id_snoc. destruct fuel as [|f]; [rewrite app_length in Hf; cbn in Hf; lia|].
+    destruct (lseg_mid l e [] _ _ _ Hs) as (n & Hn & He & Hp & Hx).
+    pose proof (entry_of_fields _ _ _ He) as (_ & Ho & _).
+    cbn [search_back]. rewrite (load_live _ _ _ Hn). cbn [bind].
+    rewrite split_last_snoc. unfold e_user. rewrite Ho.
+    destruct (is_user (e_owner e)); [reflexivity|].
+    rewrite Hp. apply lseg_app in Hs. destruct Hs as [Hs _].
+    rewrite (IH h _ f Hs) by (rewrite app_length in Hf; cbn in Hf; lia).
+    destruct (split_last l) as [[[a t] b]|]; reflexivity.
+Qed.
+
+Lemma search_fwd_ok : forall l h p fuel, lseg h p l None -> (length l < fuel)%nat ->
+  search_fwd fuel h (hd_id l None) =
+  Ok (match split_first l with Some (_, t, _) => Some (e_id t) | None => None end).
+Proof.
+  induction l as [|e r IH]; intros h p fuel Hs Hf.
+  - cbn. destruct fuel; reflexivity.
+  - destruct fuel as [|f]; [cbn in Hf; lia|].
+    cbn [lseg] in Hs. destruct Hs as (n & Hn & He & Hp & Hx & Hr).
+    pose proof (entry_of_fields _ _ _ He) as (_ & Ho & _).
+    cbn [search_fwd hd_id split_first]. rewrite (load_live _ _ _ Hn). cbn [bind].
+    unfold e_user. rewrite Ho. destruct (is_user (e_owner e)); [reflexivity|].
+    rewrite Hx. rewrite (IH h _ f Hr) by (cbn in Hf; lia).
+    destruct (split_first r) as [[[a t] b]|]; reflexivity.
+Qed.
+
+(* the two halves of the pointer surgery of _drop_send_queue_element *)
+Lemma unlink_prev : forall l1 h t nx', lseg h None l1 (Some t) -> NoDup (map e_id l1) ->
+  exists h1, match last_id l1 None with None => Ok h | Some p => store h p (with_next nx') end = Ok h1 /\
+             lseg h1 None l1 nx' /\
+             (forall y, (forall x, In x l1 -> e_id x <> y) -> h1 y = h y) /\
+             (forall y, h y = Unalloc -> h1 y = Unalloc).
+Proof.
+  intros l1 h t nx' Hs Hnd. destruct (list_snoc_cases _ l1) as [->|(l & e & ->)].
+  - cbn. exists h. repeat split; auto.
+  - rewrite last_id_snoc. destruct (lseg_mid l e [] _ _ _ Hs) as (n & Hn & He & Hp & Hx).
+    rewrite (store_live _ _ _ _ Hn). eexists. split; [reflexivity|]. split; [|split].
+    + eapply lseg_set_last_next; eauto.
+    + intros y Hy. apply upd_other. intro; subst. apply (Hy e); auto. apply in_or_app; cbn; auto.
+    + intros y Hy. rewrite upd_other; auto. intro; subst. congruence.
+Qed.
+
+Lemma unlink_next : forall l2 h p p', lseg h p l2 None -> NoDup (map e_id l2) ->
+  exists h2, match hd_id l2 None with None => Ok h | Some x => store h x (with_prev p') end = Ok h2 /\
+             lseg h2 p' l2 None /\
+             (forall y, (forall x, In x l2 -> e_id x <> y) -> h2 y = h y) /\
+             (forall y, h y = Unalloc -> h2 y = Unalloc).
+Proof.
+  intros l2 h p p' Hs Hnd. destruct l2 as [|e r].
+  - cbn. exists h. repeat split; auto.
+  - cbn [hd_id]. pose proof Hs as Hs0. cbn [lseg] in Hs. destruct Hs as (n & Hn & He & Hp & Hx & Hr).
+    rewrite (store_live _ _ _ _ Hn). eexists. split; [reflexivity|]. split; [|split].
+    + eapply lseg_set_first_prev; eauto.
+    + intros y Hy. apply upd_other. intro; subst. apply (Hy e); cbn; auto.
+    + intros y Hy. rewrite upd_other; auto. intro; subst. congruence.
+Qed.
+
+Definition a_without (a : astate) (q' : list entry) (rs : bool) (log' : list lentry) : astate :=
+  mkA q' (a_smq a) (a_next a) (a_sm_enabled a) rs (a_sent_nr a) (a_connected a) (a_sched a) (a_wire a) log'.
+
+Lemma last_id_in : forall l d, l <> [] -> exists x, In x l /\ last_id l d = Some (e_id x).
+Proof.
+  intros l d H. destruct (list_snoc_cases _ l) as [->|(l' & x & ->)]; [congruence|].
+  exists x. split; [apply in_or_app; cbn; auto|apply last_id_snoc].
+Qed.
+
+Lemma opt_eqb_refl : forall x, opt_eqb (Some x) (Some x) = true.
+Proof. intros. cbn. apply Nat.eqb_refl. Qed.
+Lemma opt_eqb_neq : forall x y, x <> y -> opt_eqb (Some x) (Some y) = false.
+Proof. intros. cbn. now apply Nat.eqb_neq. Qed.
+
+Lemma nodup_mid_l : forall (l1 : list entry) t l2 x, NoDup (map e_id (l1 ++ t :: l2)) -> In x l1 -> e_id x <> e_id t.
+Proof. intros. eapply (nodup_ids_disj l1 (t :: l2)); eauto. cbn; auto. Qed.
+Lemma nodup_mid_r : forall (l1 : list entry) t l2 x, NoDup (map e_id (l1 ++ t :: l2)) -> In x l2 -> e_id x <> e_id t.
+Proof.
+  intros. apply nodup_ids_r in H. cbn in H. inversion H; subst. intro Heq. apply H3. rewrite <- Heq. now apply in_ids.
+Qed.
+Lemma nodup_mid_lr : forall (l1 : list entry) t l2 x y, NoDup (map e_id (l1 ++ t :: l2)) -> In x l1 -> In y l2 -> e_id x <> e_id y.
+Proof. intros. eapply (nodup_ids_disj l1 (t :: l2)); eauto. cbn; auto. Qed.
+Lemma nodup_mid_drop : forall (l1 : list entry) t l2, NoDup (map e_id (l1 ++ t :: l2)) -> NoDup (map e_id (l1 ++ l2)).
+Proof. intros. rewrite map_app in *. cbn in H. eapply (NoDup_app_drop_mid _ _ [e_id t]). exact H. Qed.
+
+Lemma drop_element_ok : forall st a l1 t l2 log', Refines st a -> a_q a = l1 ++ t :: l2 ->
+  exists st', drop_element st (e_id t) = Ok (st', e_data t) /\
+              Refines st' (a_without a (l1 ++ l2) (a_r_sent a) log').
+Proof.
+  intros st a l1 t l2 log' HR Eq. dR HR. rewrite Eq in *.
+  assert (Hndq : NoDup (map e_id (l1 ++ t :: l2))) by (eapply nodup_ids_l; eauto).
+  destruct (lseg_mid l1 t l2 _ _ _ Hq) as (n & Hn & He & Hp & Hx).
+  pose proof (entry_of_fields _ _ _ He) as (_ & Ho & Hd & _).
+  apply lseg_app in Hq. destruct Hq as [Hq1 Hq2]. cbn [hd_id] in Hq1.
+  cbn [lseg] in Hq2. destruct Hq2 as (n0 & Hn0 & _ & _ & _ & Hq2).
+  destruct (unlink_prev l1 (s_heap st) (e_id t) (hd_id l2 None) Hq1) as (h1 & E1 & Hs1 & Hfr1 & Hun1).
+  { apply nodup_ids_l in Hndq. exact Hndq. }
+  assert (Hq2' : lseg h1 (Some (e_id t)) l2 None).
+  { eapply lseg_frame; [|exact Hq2]. intros x Hxl. apply Hfr1. intros y Hy. eapply nodup_mid_lr; eauto. }
+  destruct (unlink_next l2 h1 (Some (e_id t)) (last_id l1 None) Hq2') as (h2 & E2 & Hs2 & Hfr2 & Hun2).
+  { apply nodup_ids_r in Hndq. cbn in Hndq. inversion Hndq; auto. }
+  unfold drop_element. rewrite (load_live _ _ _ Hn). cbn [bind]. rewrite Hp, Hx, E1. cbn [bind]. rewrite E2. cbn [bind].
+  rewrite Hd, Ho.
+  eexists. split; [reflexivity|].
+  unfold Refines, a_without. projs.
+  assert (Hhead : (if opt_eqb (Some (e_id t)) (s_head st) then hd_id l2 None else s_head st) = hd_id (l1 ++ l2) None).
+  { rewrite Hhd. destruct l1 as [|x l1']; cbn [app hd_id].
+    - now rewrite opt_eqb_refl.
+    - rewrite opt_eqb_neq; auto. intro Heq. eapply (nodup_mid_l (x :: l1') t l2 x); cbn; eauto. }
+  assert (Htail : match hd_id (l1 ++ l2) None with
+                  | None => None
+                  | Some _ => if opt_eqb (Some (e_id t)) (s_tail st) then last_id l1 None else s_tail st
+                  end = last_id (l1 ++ l2) None).
+  { rewrite Htl. rewrite !last_id_app. cbn [last_id].
+    destruct l2 as [|y l2'].
+    - cbn [last_id]. rewrite opt_eqb_refl. rewrite app_nil_r. destruct l1; reflexivity.
+    - destruct (last_id_in (y :: l2') (Some (e_id t))) as (z & Hz & Hlz); [congruence|].
+      rewrite Hlz. rewrite opt_eqb_neq.
+      + rewrite hd_id_app. destruct l1; cbn [hd_id]; rewrite <- Hlz; apply last_id_some; congruence.
+      + intro Heq. eapply (nodup_mid_r l1 t (y :: l2') z); eauto. }
+  rewrite Hhead, Htail.
+  repeat split; auto.
+  - apply lseg_app. split.
+    + eapply lseg_frame; [|exact Hs1]. intros x Hxl.
+      rewrite upd_other by (eapply nodup_mid_l; eauto).
+      apply Hfr2. intros y Hy. intro Heq. eapply (nodup_mid_lr l1 t l2 x y); eauto.
+    + eapply lseg_frame; [|exact Hs2]. intros x Hxl. apply upd_other. eapply nodup_mid_r; eauto.
+  - eapply lseg_frame; [|exact Hsq]. intros x Hxs.
+    assert (Hxt : e_id x <> e_id t).
+    { intro Heq. eapply (nodup_ids_disj _ _ t x Hnd); auto. apply in_or_app; cbn; auto. }
+    rewrite upd_other by exact Hxt.
+    rewrite Hfr2. { apply Hfr1. intros y Hy Heq. eapply (nodup_ids_disj _ _ y x Hnd); auto. apply in_or_app; auto. }
+    intros y Hy Heq. eapply (nodup_ids_disj _ _ y x Hnd); auto. apply in_or_app; cbn; auto.
+  - rewrite <- app_assoc in Hnd. cbn [app] in Hnd. rewrite map_app in Hnd. cbn [map] in Hnd.
+    rewrite <- app_assoc. rewrite map_app.
+    eapply (NoDup_app_drop_mid _ _ [e_id t]). cbn [app]. rewrite map_app in Hnd. rewrite map_app. exact Hnd.
+  - intros y Hy. pose proof (live_below st (e_id t) n Hfresh Hn). rewrite upd_other by lia.
+    apply Hun2, Hun1, Hfresh. exact Hy.
+  - rewrite !app_length in *. cbn [length] in *. lia.
+  - rewrite Hulen. rewrite !count_user_app. rewrite Nat2Z.inj_add. rewrite count_user_cons. unfold e_user.
+    destruct (is_user (e_owner t)); lia.
+Qed.
+
+Lemma drop_found_refines : forall st a before t after, Refines st a -> a_q a = before ++ t :: after ->
+  exists st', drop_found st (e_id t) = Ok (st', snd (a_drop_at a before t after)) /\
+              Refines st' (fst (a_drop_at a before t after)).
+Proof.
+  intros st a before t after HR Eq. pose proof HR as HR'. dR HR'. rewrite Eq in *.
+  destruct (lseg_mid before t after _ _ _ Hq) as (tn & Htn & Het & Hpt & Hxt).
+  unfold drop_found, a_drop_at. rewrite (load_live _ _ _ Htn). cbn [bind]. rewrite Hxt.
+  destruct after as [|x af'].
+  - cbn [hd_id bind].
+    destruct (drop_element_ok st a before t [] (log_set (a_log a) t (Dropped (a_connected a))) HR Eq) as (st' & Hd & HR2).
+    rewrite Hd. cbn [bind fst snd]. eexists. split; [reflexivity|]. exact HR2.
+  - cbn [hd_id].
+    assert (Eq2 : a_q a = (before ++ [t]) ++ x :: af') by (rewrite Eq, <- app_assoc; reflexivity).
+    assert (Hq' : lseg (s_heap st) None ((before ++ [t]) ++ x :: af') None) by (rewrite <- app_assoc; exact Hq).
+    destruct (lseg_mid (before ++ [t]) x af' _ _ _ Hq') as (xn & Hxn & Hex & _ & _).
+    pose proof (entry_of_fields _ _ _ Hex) as (_ & _ & _ & _ & _ & Hud & _).
+    rewrite (load_live _ _ _ Hxn). cbn [bind]. rewrite Hud.
+    destruct (opt_eqb (e_link x) (Some (e_id t))) eqn:Elink.
+    + destruct (drop_element_ok st a (before ++ [t]) x af' (log_set (a_log a) x (Dropped (a_connected a))) HR Eq2)
+        as (st1 & Hd1 & HR1).
+      rewrite Hd1. cbn [bind fst].
+      pose proof (set_r_sent_refines _ _ false HR1) as HR1'.
+      edestruct (drop_element_ok (set_r_sent st1 false) _ before t af'
+                  (log_set (log_set (a_log a) x (Dropped (a_connected a))) t (Dropped (a_connected a))) HR1')
+        as (st2 & Hd2 & HR2).
+      { cbn. rewrite <- app_assoc. reflexivity. }
+      rewrite Hd2. cbn [bind fst snd]. eexists. split; [reflexivity|]. exact HR2.
+    + cbn [bind].
+      destruct (drop_element_ok st a before t (x :: af') (log_set (a_log a) t (Dropped (a_connected a))) HR Eq)
+        as (st' & Hd & HR2).
+      rewrite Hd. cbn [bind fst snd]. eexists. split; [reflexivity|]. exact HR2.
+Qed.
+
+Lemma search_fwd_user : forall fuel h t n, h t = Live n -> is_user (n_owner n) = true ->
+  search_fwd (S fuel) h (Some t) = Ok (Some t).
+Proof. intros. cbn. rewrite (load_live _ _ _ H). cbn. now rewrite H0. Qed.
+
+Lemma drop_regular_refines : forall st a w, Refines st a -> a_q a <> [] ->
+  exists st', drop_regular st w = Ok (st', snd (a_drop_regular a w)) /\ Refines st' (fst (a_drop_regular a w)).
+Proof.
+  intros st a w HR Hne. pose proof HR as HR'. dR HR'.
+  pose proof (queue_length_bound _ _ HR) as Hbound.
+  assert (Hndq : NoDup (map e_id (a_q a))) by (eapply nodup_ids_l; eauto).
+  unfold drop_regular, a_drop_regular. rewrite Hconn, Bool.negb_involutive.
+  destruct w.
+  - (* oldest *)
+    cbn [bind]. destruct (a_q a) as [|hd r] eqn:Eq; [congruence|].
+    cbn [hd_id] in Hhd. rewrite Hhd. rewrite opt_eqb_refl.
+    pose proof Hq as Hq0. cbn [lseg] in Hq. destruct Hq as (hn & Hhn & Hehd & Hphd & Hxhd & Hr).
+    pose proof (entry_of_fields _ _ _ Hehd) as (_ & _ & _ & _ & Hwip & _).
+    rewrite (load_live _ _ _ Hhn). cbn [bind a_target andb]. rewrite Hwip.
+    destruct (e_wip hd && a_connected a) eqn:Eskip.
+    + rewrite Hxhd. rewrite (search_fwd_ok r _ _ _ Hr) by (cbn in Hbound; lia). cbn [bind].
+      destruct (split_first r) as [[[a' t] b]|] eqn:Es.
+      * destruct (split_first_spec _ _ _ _ Es) as (Hl & _).
+        apply drop_found_refines; auto. rewrite Eq, Hl. reflexivity.
+      * eexists. split; [reflexivity|]. exact HR.
+    + change (Some (e_id hd)) with (hd_id (hd :: r) None).
+      rewrite (search_fwd_ok (hd :: r) _ _ _ Hq0) by (cbn in *; lia). cbn [bind].
+      destruct (split_first (hd :: r)) as [[[a' t] b]|] eqn:Es.
+      * destruct (split_first_spec _ _ _ _ Es) as (Hl & _).
+        apply drop_found_refines; auto. rewrite Eq, Hl. reflexivity.
+      * eexists. split; [reflexivity|]. exact HR.
+  - (* youngest *)
+    rewrite Htl. rewrite (search_back_ok (a_q a) _ _ _ Hq) by lia. cbn [bind a_target].
+    destruct (split_last (a_q a)) as [[[a' t] b]|] eqn:Es; [|eexists; split; [reflexivity|exact HR]].
+    destruct (split_last_spec _ _ _ _ Es) as (Hl & Hut & _).
+    rewrite Hl in Hq. destruct (lseg_mid a' t b _ _ _ Hq) as (tn & Htn & Het & Hpt & Hxt).
+    pose proof (entry_of_fields _ _ _ Het) as (_ & Ho & _ & _ & Hwip & _).
+    rewrite (load_live _ _ _ Htn). cbn [bind]. rewrite Hhd, Hl.
+    destruct a' as [|x a''].
+    + cbn [app hd_id]. rewrite opt_eqb_refl. cbn [andb]. rewrite Hwip.
+      destruct (e_wip t && a_connected a) eqn:Eskip.
+      * rewrite Hxt. apply lseg_app in Hq. destruct Hq as [_ Hq]. cbn [lseg last_id] in Hq.
+        destruct Hq as (_ & _ & _ & _ & _ & Hb).
+        rewrite (search_fwd_ok b _ _ _ Hb) by (rewrite Hl in Hbound; cbn in Hbound; lia). cbn [bind].
+        destruct (split_first b) as [[[a2 t2] b2]|] eqn:Es2.
+        -- destruct (split_first_spec _ _ _ _ Es2) as (Hl2 & _).
+           apply drop_found_refines; auto. rewrite Hl, Hl2. reflexivity.
+        -- eexists. split; [reflexivity|]. exact HR.
+      * rewrite (search_fwd_user _ _ _ _ Htn) by (rewrite Ho; exact Hut). cbn [bind].
+        apply drop_found_refines; auto.
+    + cbn [app hd_id]. rewrite opt_eqb_neq.
+      2:{ intro Heq. rewrite Hl in Hndq. eapply (nodup_mid_l (x :: a'') t b x); cbn; eauto. }
+      cbn [andb]. rewrite (search_fwd_user _ _ _ _ Htn) by (rewrite Ho; exact Hut). cbn [bind].
+      apply drop_found_refines; auto.
+Qed.
+
+Lemma drop_refines : forall st a w, Refines st a ->
+  exists st', op_drop st w = Ok (st', snd (a_drop a w)) /\ Refines st' (fst (a_drop a w)).
+Proof.
+  intros st a w HR. pose proof HR as HR'. dR HR'. unfold op_drop, a_drop.
+  destruct (a_q a) as [|e r] eqn:Eq.
+  - cbn in Hhd. rewrite Hhd. eexists. split; [reflexivity|exact HR].
+  - cbn [hd_id] in Hhd. rewrite Hhd.
+    assert (Hne : a_q a <> []) by congruence.
+    destruct r as [|e2 r'].
+    + cbn in Htl. rewrite Htl, opt_eqb_refl.
+      cbn [lseg] in Hq. destruct Hq as (n & Hn & He & _).
+      pose proof (entry_of_fields _ _ _ He) as (_ & Ho & _ & _ & Hwip & _).
+      rewrite (load_live _ _ _ Hn). cbn [bind]. rewrite Hwip, Hconn, Bool.negb_involutive. unfold e_user. rewrite Ho.
+      destruct (e_wip e && a_connected a); [eexists; split; [reflexivity|exact HR]|].
+      destruct (negb (is_user (e_owner e))); [eexists; split; [reflexivity|exact HR]|].
+      apply drop_regular_refines; auto.
+    + rewrite Htl.
+      assert (Hneq : opt_eqb (Some (e_id e)) (last_id (e :: e2 :: r') None) = false).
+      { destruct (last_id_in (e2 :: r') (Some (e_id e))) as (z & Hz & Hlz); [congruence|].
+        cbn [last_id] in *. rewrite Hlz. apply opt_eqb_neq. intro Heq.
+        apply nodup_ids_l in Hnd. eapply (nodup_mid_r [] e (e2 :: r') z); eauto. }
+      rewrite Hneq. apply drop_regular_refines; auto.
+Qed.
+
+(* ================================================================== refinement: whole histories *)
+Lemma refines_wire : forall st a, Refines st a -> s_wire st = a_wire a.
+Proof. intros st a HR. dR HR. auto. Qed.
+
+Lemma step_refines : forall o st a, Refines st a ->
+  exists st', step st o = Ok (st', snd (a_step a o)) /\ Refines st' (fst (a_step a o)).
+Proof.
+  intros o st a HR. destruct o as [ow d|l| |w| |h]; cbn [step a_step fst snd].
+  - destruct (send_refines st a ow d HR) as (st' & Hs & HR'). rewrite Hs. cbn [bind]. eauto.
+  - eexists. split; [reflexivity|]. dR HR. unfold Refines, add_sched, a_add_sched. projs.
+    repeat split; auto. congruence.
+  - destruct (iter_refines st a HR) as (st' & Hs & HR'). rewrite Hs. cbn [bind fst snd].
+    rewrite (refines_wire _ _ HR), (refines_wire _ _ HR'). eauto.
+  - destruct (drop_refines st a w HR) as (st' & Hs & HR'). rewrite Hs. cbn [bind fst snd]. eauto.
+  - rewrite (qlen_refines st a HR). cbn [bind]. eauto.
+  - destruct (ack_refines st a h HR) as (st' & Hs & HR'). rewrite Hs. cbn [bind]. eauto.
+Qed.
+
+Lemma init_refines : forall sm, Refines (init sm) (a_init sm).
+Proof.
+  intros. unfold Refines, init, a_init. projs. cbn. repeat split; auto. constructor.
+Qed.
+
+Lemma run_refines : forall ops st a, Refines st a ->
+  exists st', run ops st = Ok (st', snd (a_run ops a)) /\ Refines st' (fst (a_run ops a)).
+Proof.
+  induction ops as [|o r IH]; intros st a HR; cbn [run a_run fst snd].
+  - eauto.
+  - destruct (step_refines o st a HR) as (st1 & Hs & HR1). rewrite Hs. cbn [bind fst snd].
+    destruct (IH _ _ HR1) as (st2 & Hr & HR2). rewrite Hr. cbn [bind fst snd]. eauto.
+Qed.
+
+(* walking the heap from head finds exactly the abstract list *)
+Lemma walk_ok : forall l h p fuel, lseg h p l None -> (length l < fuel)%nat ->
+  exists w, walk fuel h (hd_id l None) = Ok w /\ entries_of w = l.
+Proof.
+  induction l as [|e r IH]; intros h p fuel Hs Hf.
+  - exists []. destruct fuel; auto.
+  - destruct fuel as [|f]; [cbn in Hf; lia|].
+    cbn [lseg] in Hs. destruct Hs as (n & Hn & He & Hp & Hx & Hr).
+    destruct (IH h _ f Hr) as (w & Hw & Hew); [cbn in Hf; lia|].
+    cbn [walk hd_id]. rewrite (load_live _ _ _ Hn). cbn [bind]. rewrite Hx, Hw. cbn [bind].
+    eexists. split; [reflexivity|]. unfold entries_of in *. cbn [map fst snd]. now rewrite He, Hew.
+Qed.
+
+Lemma queue_of_ok : forall st a, Refines st a -> exists w, queue_of st = Ok w /\ entries_of w = a_q a.
+Proof.
+  intros st a HR. pose proof (queue_length_bound _ _ HR). dR HR. unfold queue_of. rewrite Hhd.
+  eapply walk_ok; eauto. lia.
+Qed.
+Lemma smq_of_ok : forall st a, Refines st a -> exists w, smq_of st = Ok w /\ entries_of w = a_smq a.
+Proof.
+  intros st a HR. pose proof (smq_length_bound _ _ HR). dR HR. unfold smq_of. rewrite Hshd.
+  eapply walk_ok; eauto. lia.
+Qed.
+
+(* ================================================================== the abstract machine: ghost-log invariant *)
+Definition lid (l : lentry) : nat := e_id (l_e l).
+Definition lqueued (l : lentry) : bool := match l_status l with Queued => true | _ => false end.
+(* what an entry of the log has put on the wire so far *)
+Definition wirepart (l : lentry) : list (nat * Z) :=
+  match l_status l with
+  | Done => tag (lid l) (e_data (l_e l))
+  | _ => tag (lid l) (firstn (e_sent (l_e l)) (e_data (l_e l)))
+  end.
+(* untouched: nothing written, never attempted, not finished *)
+Definition clean (l : lentry) : Prop := e_sent (l_e l) = 0%nat /\ e_wip (l_e l) = false /\ l_status l <> Done.
+Definition good (l : lentry) : Prop :=
+  (e_wip (l_e l) = false -> e_sent (l_e l) = 0%nat /\ l_status l <> Done) /\
+  (l_status l = Dropped true -> e_sent (l_e l) = 0%nat) /\
+  (e_link (l_e l) <> None -> e_owner (l_e l) = OwSmLib /\ e_data (l_e l) = req_ack).
+(* everything younger than the oldest queued element is untouched *)
+Fixpoint shape (log : list lentry) : Prop :=
+  match log with
+  | [] => True
+  | l :: r => match l_status l with Queued => Forall clean r | _ => shape r end
+  end.
+
+Record Kc (q : list entry) (log : list lentry) (wire : list (nat * Z)) (nx : nat) : Prop := mkK {
+  k_queue : map l_e (filter lqueued log) = q;
+  k_nodup : NoDup (map lid log);
+  k_shape : shape log;
+  k_good : Forall good log;
+  k_wire : wire = concat (map wirepart log);
+  k_fresh : Forall (fun l => (lid l < nx)%nat) log }.
+Definition K (a : astate) : Prop := Kc (a_q a) (a_log a) (a_wire a) (a_next a).
+
+Lemma clean_shape : forall r, Forall clean r -> shape r.
+Proof.
+  induction r as [|l r IH]; intros H; cbn; auto. inversion H; subst.
+  destruct (l_status l); auto.
+Qed.
+
+Lemma shape_snoc : forall log l, shape log -> clean l -> shape (log ++ [l]).
+Proof.
+  induction log as [|x r IH]; intros l Hs Hc; cbn in *.
+  - destruct (l_status l); auto.
+  - destruct (l_status x); auto. apply Forall_app. split; auto.
+Qed.
+
+Lemma tag_app : forall i a b, tag i (a ++ b) = tag i a ++ tag i b.
+Proof. intros. unfold tag. apply map_app. Qed.
+
+Lemma firstn_add : forall A s k (d : list A), firstn (s + k) d = firstn s d ++ firstn k (skipn s d).
+Proof.
+  induction s; intros; cbn; auto. destruct d; cbn.
+  - now rewrite firstn_nil.
+  - now rewrite IHs.
+Qed.
+
+Lemma clean_wirepart_nil : forall r, Forall clean r -> concat (map wirepart r) = [].
+Proof.
+  induction r as [|l r IH]; intros H; cbn; auto. inversion H as [|? ? (Hs & _ & Hd) Hr]; subst.
+  rewrite IH by auto. unfold wirepart. rewrite Hs. destruct (l_status l); try congruence; reflexivity.
+Qed.
+
+Lemma filter_split : forall log l1 t l2, map l_e (filter lqueued log) = l1 ++ t :: l2 ->
+  exists L1 L2, log = L1 ++ mkL t Queued :: L2 /\ map l_e (filter lqueued L1) = l1 /\
+                map l_e (filter lqueued L2) = l2.
+Proof.
+  induction log as [|x r IH]; intros l1 t l2 H; cbn in H.
+  - destruct l1; discriminate.
+  - destruct (lqueued x) eqn:Eq.
+    + destruct l1 as [|y l1']; cbn in H; inversion H; subst.
+      * exists [], r. split; [|split; auto]. cbn. destruct x as [e s]. unfold lqueued in Eq. cbn in *.
+        destruct s; try discriminate. reflexivity.
+      * destruct (IH _ _ _ H2) as (L1 & L2 & -> & H1' & H2'). exists (x :: L1), L2.
+        split; [reflexivity|]. split; auto. cbn. rewrite Eq. cbn. now rewrite H1'.
+    + destruct (IH _ _ _ H) as (L1 & L2 & -> & H1' & H2'). exists (x :: L1), L2.
+      split; [reflexivity|]. split; auto. cbn. now rewrite Eq.
+Qed.
+
+Lemma log_set_notin : forall L e s, (forall l, In l L -> lid l <> e_id e) -> log_set L e s = L.
+Proof.
+  intros L e s H. unfold log_set. induction L as [|x r IH]; cbn [map]; auto.
+  rewrite IH by (intros; apply H; cbn; auto).
+  assert (H0 : lid x <> e_id e) by (apply H; cbn; auto). unfold lid in H0.
+  apply Nat.eqb_neq in H0. now rewrite H0.
+Qed.
+
+Lemma log_set_at : forall L1 t s L2 t' s', NoDup (map lid (L1 ++ mkL t s :: L2)) -> e_id t' = e_id t ->
+  log_set (L1 ++ mkL t s :: L2) t' s' = L1 ++ mkL t' s' :: L2.
+Proof.
+  intros L1 t s L2 t' s' Hnd Hid. unfold log_set. rewrite map_app. cbn [map l_e]. fold (log_set L1 t' s'). fold (log_set L2 t' s').
+  rewrite Hid, Nat.eqb_refl.
+  rewrite map_app in Hnd. cbn [map] in Hnd.
+  rewrite !log_set_notin; auto.
+  - intros l Hl. rewrite Hid. apply NoDup_app_r in Hnd. inversion Hnd; subst. intro Heq. apply H1.
+    change (lid (mkL t s)) with (e_id t). rewrite <- Heq. now apply in_map.
+  - intros l Hl. rewrite Hid. intro Heq. eapply NoDup_app_disj; [exact Hnd| |].
+    + apply in_map. exact Hl. + rewrite Heq. left. reflexivity.
+Qed.
+
+(* the head of the queue sits behind finished entries only, everything after it is untouched *)
+Lemma K_head_split : forall e r log wire nx, Kc (e :: r) log wire nx ->
+  exists P R, log = P ++ mkL e Queued :: R /\ Forall (fun l => lqueued l = false) P /\
+              Forall clean R /\ map l_e (filter lqueued R) = r.
+Proof.
+  intros e r log wire nx HK. destruct HK as [Hq _ Hs _ _ _].
+  destruct (filter_split log [] e r Hq) as (P & R & -> & HP & HR).
+  exists P, R. split; auto.
+  assert (HPn : Forall (fun l => lqueued l = false) P).
+  { clear - HP. induction P as [|x P IH]; cbn in *; auto. destruct (lqueued x) eqn:E; [discriminate|]. auto. }
+  split; auto. split; auto.
+  clear - Hs HPn. induction P as [|x P IH]; cbn in *; auto.
+  inversion HPn; subst. unfold lqueued in H1. destruct (l_status x); try discriminate; auto.
+Qed.
+
+Lemma K_tail_clean : forall e r log wire nx, Kc (e :: r) log wire nx ->
+  Forall (fun x => e_sent x = 0%nat /\ e_wip x = false) r.
+Proof.
+  intros. destruct (K_head_split _ _ _ _ _ H) as (P & R & _ & _ & Hc & <-).
+  clear - Hc. induction R as [|x R IH]; cbn; auto. inversion Hc as [|? ? (Hs & Hw & _) ?]; subst.
+  destruct (lqueued x); cbn; auto.
+Qed.
+
+Lemma filter_app_mid : forall P (x : lentry) R, filter lqueued (P ++ x :: R) =
+  filter lqueued P ++ (if lqueued x then [x] else []) ++ filter lqueued R.
+Proof. intros. rewrite filter_app. cbn. destruct (lqueued x); reflexivity. Qed.
+
+Lemma notq_filter_nil : forall P, Forall (fun l => lqueued l = false) P -> filter lqueued P = [].
+Proof. induction P; intros H; cbn; auto. inversion H; subst. rewrite H2. auto. Qed.
+
+Lemma shape_skip : forall P R, Forall (fun l => lqueued l = false) P -> (shape (P ++ R) <-> shape R).
+Proof.
+  induction P as [|x P IH]; intros R H; cbn; [tauto|]. inversion H; subst.
+  unfold lqueued in H2. destruct (l_status x); try discriminate; auto.
+Qed.
+
+Lemma NoDup_app_snoc_fresh : forall A (l : list A) x, NoDup l -> ~ In x l -> NoDup (l ++ [x]).
+Proof.
+  intros. eapply Permutation_NoDup with (l := x :: l).
+  - apply Permutation_cons_append.
+  - constructor; auto.
+Qed.
+
+Lemma Kc_init : Kc [] [] [] 0.
+Proof. constructor; cbn; auto; constructor. Qed.
+
+Lemma Kc_enqueue : forall q log wire nx ow data link,
+  Kc q log wire nx -> (link <> None -> ow = OwSmLib /\ data = req_ack) ->
+  Kc (q ++ [mkE nx ow data 0 false link 0]) (log ++ [mkL (mkE nx ow data 0 false link 0) Queued]) wire (S nx).
+Proof.
+  intros q log wire nx ow data link [Hq Hnd Hs Hg Hw Hf] Hlink. constructor.
+  - rewrite filter_app, map_app, Hq. reflexivity.
+  - rewrite map_app. cbn [map]. apply NoDup_app_snoc_fresh; auto.
+    intro Hin. apply in_map_iff in Hin. destruct Hin as (l & Hl & Hin). rewrite Forall_forall in Hf.
+    specialize (Hf l Hin). unfold lid in *. cbn in Hl. lia.
+  - apply shape_snoc; auto. repeat split; cbn; congruence.
+  - apply Forall_app. split; auto. constructor; [|constructor]. split; [|split]; cbn; intros; try discriminate; auto.
+    split; congruence.
+  - rewrite map_app, concat_app. cbn. rewrite app_nil_r. exact Hw.
+  - apply Forall_app. split.
+    + eapply Forall_impl; [|exact Hf]. cbn. intros. lia.
+    + constructor; [|constructor]. unfold lid. cbn. lia.
+Qed.
+
+(* replacing the log entry of the queue head *)
+Lemma K_set_head : forall e r log wire nx e' s',
+  Kc (e :: r) log wire nx -> e_id e' = e_id e ->
+  exists P R, log = P ++ mkL e Queued :: R /\ log_set log e' s' = P ++ mkL e' s' :: R /\
+              Forall (fun l => lqueued l = false) P /\ Forall clean R /\ map l_e (filter lqueued R) = r.
+Proof.
+  intros e r log wire nx e' s' HK Hid.
+  destruct (K_head_split _ _ _ _ _ HK) as (P & R & Hlog & HP & HR & Hf).
+  exists P, R. repeat split; auto. rewrite Hlog. apply log_set_at; auto.
+  rewrite <- Hlog. apply HK.
+Qed.
+
+Lemma map_lid_set : forall P e s R e' s', e_id e' = e_id e ->
+  map lid (P ++ mkL e' s' :: R) = map lid (P ++ mkL e s :: R).
+Proof. intros. rewrite !map_app. cbn [map]. unfold lid at 2 4. cbn. now rewrite H. Qed.
+
+Lemma Forall_mid : forall A (Pr : A -> Prop) P x R, Forall Pr (P ++ x :: R) <-> Forall Pr P /\ Pr x /\ Forall Pr R.
+Proof.
+  intros. rewrite Forall_app. split.
+  - intros [H1 H2]. inversion H2; subst. auto.
+  - intros (H1 & H2 & H3). auto.
+Qed.
+
+Lemma Kc_progress : forall e r log wire nx w' acc,
+  Kc (e :: r) log wire nx ->
+  firstn w' (e_data e) = firstn (e_sent e) (e_data e) ++ firstn acc (skipn (e_sent e) (e_data e)) ->
+  Kc (progress e w' :: r) (log_set log (progress e w') Queued)
+     (wire ++ tag (e_id e) (firstn acc (skipn (e_sent e) (e_data e)))) nx.
+Proof.
+  intros e r log wire nx w' acc HK Hw.
+  destruct (K_set_head e r log wire nx (progress e w') Queued HK eq_refl) as (P & R & Hlog & Hset & HP & HR & Hf).
+  destruct HK as [Hq Hnd Hs Hg Hwire Hfr]. rewrite Hset. rewrite Hlog in *.
+  constructor.
+  - rewrite filter_app_mid, !map_app. rewrite notq_filter_nil by auto. cbn. now rewrite Hf.
+  - erewrite map_lid_set; eauto.
+  - apply shape_skip; auto; cbn; exact HR.
+  - apply Forall_mid in Hg. destruct Hg as (Hg1 & (_ & _ & Hg2) & Hg3). apply Forall_mid.
+    split; auto. split; auto. split; [|split]; intros; cbn in *; try discriminate. apply Hg2; auto.
+  - rewrite Hwire. rewrite !map_app, !concat_app. cbn [map concat]. rewrite (clean_wirepart_nil R HR).
+    rewrite !app_nil_r. rewrite <- app_assoc. f_equal.
+    unfold wirepart, lid. cbn. rewrite Hw. fold (tag (e_id e)). now rewrite <- tag_app.
+  - apply Forall_mid in Hfr. destruct Hfr as (H1 & H2 & H3). apply Forall_mid. repeat split; auto.
+Qed.
+
+Lemma Kc_complete : forall e r log wire nx e2,
+  Kc (e :: r) log wire nx -> e_id e2 = e_id e -> e_data e2 = e_data e -> e_wip e2 = true ->
+  e_owner e2 = e_owner e -> e_link e2 = e_link e ->
+  Kc r (log_set log e2 Done) (wire ++ tag (e_id e) (skipn (e_sent e) (e_data e))) nx.
+Proof.
+  intros e r log wire nx e2 HK Hid Hdata Hwip Hown Hlnk.
+  destruct (K_set_head e r log wire nx e2 Done HK Hid) as (P & R & Hlog & Hset & HP & HR & Hf).
+  destruct HK as [Hq Hnd Hs Hg Hwire Hfr]. rewrite Hset. rewrite Hlog in *.
+  constructor.
+  - rewrite filter_app_mid, !map_app. rewrite notq_filter_nil by auto. cbn. exact Hf.
+  - erewrite map_lid_set; eauto.
+  - apply shape_skip; auto; cbn; apply clean_shape; auto.
+  - apply Forall_mid in Hg. destruct Hg as (Hg1 & (_ & _ & Hg2) & Hg3). apply Forall_mid.
+    split; auto. split; auto. split; [|split]; intros; cbn in *; try (exfalso; congruence).
+    rewrite Hown, Hdata. apply Hg2. congruence.
+  - rewrite Hwire. rewrite !map_app, !concat_app. cbn [map concat]. rewrite (clean_wirepart_nil R HR).
+    rewrite !app_nil_r. rewrite <- app_assoc. f_equal.
+    unfold wirepart, lid. cbn. rewrite Hid, Hdata. fold (tag (e_id e)). rewrite <- tag_app. now rewrite firstn_skipn.
+  - apply Forall_mid in Hfr. destruct Hfr as (H1 & H2 & H3). apply Forall_mid. repeat split; auto.
+    unfold lid in *. cbn in *. congruence.
+Qed.
+
+Lemma shape_drop : forall L1 t c L2, shape (L1 ++ mkL t Queued :: L2) -> shape (L1 ++ mkL t (Dropped c) :: L2).
+Proof.
+  induction L1 as [|x L1 IH]; intros t c L2 H; cbn in *.
+  - apply clean_shape; auto.
+  - destruct (l_status x); auto.
+    apply Forall_mid in H. destruct H as (H1 & (Hs & Hw & _) & H3). apply Forall_mid. repeat split; auto. cbn. congruence.
+Qed.
+
+Lemma Kc_drop : forall l1 t l2 log wire nx c,
+  Kc (l1 ++ t :: l2) log wire nx -> (c = true -> e_wip t = false) ->
+  Kc (l1 ++ l2) (log_set log t (Dropped c)) wire nx.
+Proof.
+  intros l1 t l2 log wire nx c HK Hc. destruct HK as [Hq Hnd Hs Hg Hwire Hfr].
+  destruct (filter_split log l1 t l2 Hq) as (L1 & L2 & Hlog & H1 & H2).
+  rewrite Hlog in *. rewrite (log_set_at L1 t Queued L2 t (Dropped c)) by auto.
+  constructor.
+  - rewrite filter_app_mid, !map_app. cbn. now rewrite H1, H2.
+  - erewrite map_lid_set; eauto.
+  - apply shape_drop; auto.
+  - apply Forall_mid in Hg. destruct Hg as (Hg1 & (Hg2 & _ & Hg4) & Hg3). apply Forall_mid.
+    split; auto. split; auto. split; [|split]; intros; cbn in *.
+    + split; [apply Hg2; auto|congruence]. + inversion H; subst. apply Hg2; auto. + apply Hg4; auto.
+  - rewrite Hwire. rewrite !map_app. cbn [map]. reflexivity.
+  - apply Forall_mid in Hfr. destruct Hfr as (Hf1 & Hf2 & Hf3). apply Forall_mid. repeat split; auto.
+Qed.
+
+(* ---- the operations keep the invariant *)
+Lemma write_result_le : forall r tw k e, write_result r tw = (Some k, e) -> (k <= tw)%nat.
+Proof.
+  intros r tw k e H. destruct r; cbn in H.
+  - inversion H; lia.
+  - destruct (Nat.eqb tw 0) eqn:E0; [inversion H; lia|]. destruct (Nat.eqb k0 0); inversion H. lia.
+  - discriminate.
+  - discriminate.
+Qed.
+
+Lemma loop_K : forall q a err, Kc q (a_log a) (a_wire a) (a_next a) -> K (fst (a_loop q a err)).
+Proof.
+  induction q as [|e r IH]; intros a err HK.
+  - cbn. exact HK.
+  - cbn [a_loop].
+    destruct (pop_sched (a_sched a)) as [res sched'].
+    destruct (write_result res (length (e_data e) - e_sent e)) as [ret er] eqn:Ewr.
+    destruct (match ret with Some k => Nat.eqb k (length (e_data e) - e_sent e) | None => false end) eqn:Ecomp;
+      cbn [negb].
+    + (* complete *)
+      destruct ret as [k|]; [|discriminate]. apply Nat.eqb_eq in Ecomp. subst k.
+      apply IH. cbn [a_log a_wire a_next].
+      assert (Hall : firstn (length (e_data e) - e_sent e) (skipn (e_sent e) (e_data e)) = skipn (e_sent e) (e_data e)).
+      { apply firstn_all2. rewrite skipn_length. lia. }
+      unfold tag in *. rewrite Hall.
+      apply Kc_complete; auto; destruct (negb (is_sm (e_owner e)) && a_sm_enabled a); reflexivity.
+    + (* incomplete *)
+      unfold K. cbn [fst a_q a_log a_wire a_next]. apply Kc_progress; auto.
+      destruct ret as [k|]; [|cbn; now rewrite app_nil_r].
+      pose proof (write_result_le _ _ _ _ Ewr) as Hle. apply Nat.eqb_neq in Ecomp.
+      destruct (Nat.ltb 0 k) eqn:E0; cbn [andb].
+      * assert (Hlt : Nat.ltb k (length (e_data e) - e_sent e) = true) by (apply Nat.ltb_lt; lia).
+        rewrite Hlt. apply firstn_add.
+      * apply Nat.ltb_ge in E0. assert (k = 0%nat) by lia. subst k. cbn. now rewrite app_nil_r.
+Qed.
+
+Lemma K_a_enqueue : forall a d ow l, K a -> (l <> None -> ow = OwSmLib /\ d = req_ack) -> K (fst (a_enqueue a d ow l)).
+Proof. intros. unfold K, a_enqueue. cbn. apply Kc_enqueue; auto. Qed.
+
+Lemma K_send : forall a ow d, K a -> K (a_send a ow d).
+Proof.
+  intros a ow d HK. unfold a_send. destruct (a_connected a); auto.
+  pose proof (K_a_enqueue a d ow None HK) as H1. specialize (H1 ltac:(congruence)).
+  destruct (a_enqueue a d ow None) as [a1 item] eqn:E. cbn [fst] in H1.
+  destruct (negb (is_sm ow) && a_sm_enabled a1 && negb (a_r_sent a1)); auto.
+  assert (H2 : K (a_set_r_sent a1 true)) by exact H1.
+  destruct (a_connected (a_set_r_sent a1 true)); auto.
+  apply K_a_enqueue; auto.
+Qed.
+
+Lemma K_iter : forall a, K a -> K (fst (a_iter a)).
+Proof.
+  intros a HK. unfold a_iter. destruct (a_connected a); auto.
+  pose proof (loop_K (a_q a) a false HK) as H1.
+  destruct (a_loop (a_q a) a false) as [a1 err]. cbn [fst] in *. destruct err; auto.
+Qed.
+
+Lemma a_target_spec : forall q live w b t af, a_target q live w = Some (b, t, af) ->
+  q = b ++ t :: af /\ e_user t = true /\ (live = true -> b = [] -> e_wip t = false).
+Proof.
+  intros q live w b t af H. destruct w; cbn [a_target] in H.
+  - destruct q as [|hd r]; [discriminate|].
+    destruct (e_wip hd && live) eqn:Eskip.
+    + destruct (split_first r) as [[[a' t'] b']|] eqn:Es; [|discriminate]. inversion H; subst.
+      destruct (split_first_spec _ _ _ _ Es) as (-> & Hu & _). repeat split; auto. intros; discriminate.
+    + destruct (split_first_spec _ _ _ _ H) as (Hl & Hu & _). repeat split; auto.
+      intros -> ->. cbn in Hl. inversion Hl; subst. rewrite Bool.andb_true_r in Eskip. exact Eskip.
+  - destruct (split_last q) as [[[a' t'] b']|] eqn:Es; [|discriminate].
+    destruct (split_last_spec _ _ _ _ Es) as (Hl & Hu & _).
+    destruct a' as [|x a''].
+    + destruct (e_wip t' && live) eqn:Eskip.
+      * destruct (split_first b') as [[[a2 t2] b2]|] eqn:Es2; [|discriminate]. inversion H; subst.
+        destruct (split_first_spec _ _ _ _ Es2) as (-> & Hu2 & _). repeat split; auto. intros; discriminate.
+      * inversion H; subst. repeat split; auto. intros ->. rewrite Bool.andb_true_r in Eskip. auto.
+    + inversion H; subst. repeat split; auto. intros; discriminate.
+Qed.
+
+Lemma tail_untouched : forall l1 t l2 log wire nx, Kc (l1 ++ t :: l2) log wire nx -> l1 <> [] ->
+  e_sent t = 0%nat /\ e_wip t = false.
+Proof.
+  intros l1 t l2 log wire nx HK Hne. destruct l1 as [|hd l1']; [congruence|].
+  cbn [app] in HK. apply K_tail_clean in HK. apply Forall_mid in HK. tauto.
+Qed.
+
+Lemma K_drop_at : forall a b t af, K a -> a_q a = b ++ t :: af ->
+  (a_connected a = true -> b = [] -> e_wip t = false) -> K (fst (a_drop_at a b t af)).
+Proof.
+  intros a b t af HK Eq Hhead. unfold K in HK. rewrite Eq in HK.
+  assert (Hwt : a_connected a = true -> e_wip t = false).
+  { intros Hc. destruct b as [|hd b']; auto. eapply tail_untouched; eauto. congruence. }
+  unfold a_drop_at.
+  destruct af as [|x af'].
+  - unfold K. cbn [fst a_q a_log a_wire a_next]. apply Kc_drop; auto.
+  - destruct (opt_eqb (e_link x) (Some (e_id t))).
+    + unfold K. cbn [fst a_q a_log a_wire a_next].
+      apply Kc_drop; auto.
+      replace (b ++ t :: af') with ((b ++ [t]) ++ af') by (rewrite <- app_assoc; reflexivity).
+      apply Kc_drop.
+      * rewrite <- app_assoc. exact HK.
+      * intros _. eapply (tail_untouched (b ++ [t]) x af'); [rewrite <- app_assoc; exact HK|].
+        destruct b; discriminate.
+    + unfold K. cbn [fst a_q a_log a_wire a_next]. apply Kc_drop; auto.
+Qed.
+
+Lemma K_drop : forall a w, K a -> K (fst (a_drop a w)).
+Proof.
+  intros a w HK.
+  assert (Hreg : K (fst (a_drop_regular a w))).
+  { unfold a_drop_regular. destruct (a_target (a_q a) (a_connected a) w) as [[[b t] af]|] eqn:Et; auto.
+    destruct (a_target_spec _ _ _ _ _ _ Et) as (Hl & _ & Hw). apply K_drop_at; auto. }
+  unfold a_drop. destruct (a_q a) as [|e [|e2 r]]; auto.
+  destruct (e_wip e && a_connected a); auto. destruct (negb (e_user e)); auto.
+Qed.
+
+Lemma K_step : forall a o, K a -> K (fst (a_step a o)).
+Proof.
+  intros a o HK. destruct o; cbn [a_step fst].
+  - apply K_send; auto.
+  - exact HK.
+  - apply K_iter; auto.
+  - apply K_drop; auto.
+  - exact HK.
+  - unfold a_ack. destruct (a_connected a && a_sm_enabled a); exact HK.
+Qed.
+
+Lemma K_init : forall sm, K (a_init sm).
+Proof. intros. exact Kc_init. Qed.
+
+Lemma K_run : forall ops a, K a -> K (fst (a_run ops a)).
+Proof. induction ops; intros; cbn; auto. apply IHops. apply K_step. auto. Qed.
+
+(* ================================================================== the property statements, abstract level *)
+Lemma clean_contrib : forall r, Forall clean r -> pending (map l_e (filter lqueued r)) = concat (map contribution r).
+Proof.
+  induction r as [|l r IH]; intros H; [reflexivity|]. inversion H as [|? ? (Hs & Hw & Hd) Hr]; subst.
+  specialize (IH Hr). cbn [filter map concat]. unfold lqueued at 1. unfold contribution at 1.
+  destruct (l_status l) eqn:Est; try congruence.
+  - cbn [map]. unfold pending in *. cbn [map concat]. rewrite IH, Hs. reflexivity.
+  - rewrite IH, Hs. reflexivity.
+Qed.
+
+Lemma fifo_log : forall log q, map l_e (filter lqueued log) = q -> shape log ->
+  concat (map wirepart log) ++ pending q = concat (map contribution log).
+Proof.
+  induction log as [|l r IH]; intros q Hq Hs; cbn in *.
+  - subst. reflexivity.
+  - unfold lqueued in Hq. unfold wirepart at 1, contribution at 1. destruct (l_status l) eqn:Est.
+    + cbn in Hq. subst q. rewrite (clean_wirepart_nil r Hs), app_nil_r.
+      unfold pending. cbn. fold (pending (map l_e (filter lqueued r))). rewrite (clean_contrib r Hs).
+      rewrite app_assoc. f_equal. unfold lid. rewrite <- tag_app. now rewrite firstn_skipn.
+    + rewrite <- app_assoc. f_equal. apply IH; auto.
+    + rewrite <- app_assoc. f_equal. apply IH; auto.
+Qed.
+
+Lemma K_fifo : forall a, K a -> a_wire a ++ pending (a_q a) = concat (map contribution (a_log a)).
+Proof. intros a [Hq _ Hs _ Hw _]. rewrite Hw. apply fifo_log; auto. Qed.
+
+Lemma wire_origin : forall log i b, In (i, b) (concat (map wirepart log)) ->
+  exists l, In l log /\ lid l = i /\ In (i, b) (wirepart l).
+Proof.
+  intros log i b H. apply in_concat in H. destruct H as (x & Hx & Hin).
+  apply in_map_iff in Hx. destruct Hx as (l & <- & Hl). exists l. split; auto. split; auto.
+  unfold wirepart, tag in Hin. destruct (l_status l); apply in_map_iff in Hin; destruct Hin as (? & Heq & _); congruence.
+Qed.
+
+Lemma nodup_lid_eq : forall log l1 l2, NoDup (map lid log) -> In l1 log -> In l2 log -> lid l1 = lid l2 -> l1 = l2.
+Proof.
+  induction log as [|x r IH]; intros l1 l2 Hnd H1 H2 Heq; cbn in *; [tauto|].
+  inversion Hnd; subst. destruct H1 as [->|H1], H2 as [->|H2]; auto.
+  - exfalso. apply H3. rewrite Heq. now apply in_map.
+  - exfalso. apply H3. rewrite <- Heq. now apply in_map.
+Qed.
+
+Lemma queued_in_log : forall log q e, map l_e (filter lqueued log) = q -> In e q -> In (mkL e Queued) log.
+Proof.
+  intros log q e Hq Hin. subst q. apply in_map_iff in Hin. destruct Hin as (l & <- & Hl).
+  apply filter_In in Hl. destruct Hl as [Hl Hq]. destruct l as [e s]. unfold lqueued in Hq. cbn in *.
+  destruct s; try discriminate. exact Hl.
+Qed.
+
+Lemma untouched_not_on_wire : forall q log wire nx l, Kc q log wire nx -> In l log ->
+  e_sent (l_e l) = 0%nat -> l_status l <> Done -> ~ on_wire (lid l) wire.
+Proof.
+  intros q log wire nx l HK Hl Hs Hd [b Hb]. destruct HK as [_ Hnd _ _ Hw _]. rewrite Hw in Hb.
+  destruct (wire_origin _ _ _ Hb) as (l' & Hl' & Hid & Hin).
+  assert (l' = l) by (eapply nodup_lid_eq; eauto). subst l'.
+  unfold wirepart in Hin. rewrite Hs in Hin. destruct (l_status l); try congruence; cbn in Hin; auto.
+Qed.
+
+Lemma unstarted_untouched : forall q log wire nx e, Kc q log wire nx -> In e q -> e_wip e = false ->
+  e_sent e = 0%nat /\ ~ on_wire (e_id e) wire.
+Proof.
+  intros q log wire nx e HK Hin Hw.
+  pose proof (queued_in_log _ _ _ (k_queue _ _ _ _ HK) Hin) as Hl.
+  pose proof (k_good _ _ _ _ HK) as Hg. rewrite Forall_forall in Hg. destruct (Hg _ Hl) as (Hg1 & _).
+  destruct (Hg1 Hw) as (Hs & Hd). split; auto.
+  apply (untouched_not_on_wire q log wire nx (mkL e Queued)); auto.
+Qed.
+
+Definition unstarted_user (e : entry) : bool := e_user e && negb (e_wip e).
+
+Lemma K_qlen : forall a, K a -> a_qlen a = Z.of_nat (length (filter unstarted_user (a_q a))).
+Proof.
+  intros a HK. unfold a_qlen. destruct (a_q a) as [|e r] eqn:Eq; [reflexivity|].
+  unfold K in HK. rewrite Eq in HK. pose proof (K_tail_clean _ _ _ _ _ HK) as Ht.
+  assert (Hr : filter unstarted_user r = filter e_user r).
+  { clear - Ht. induction r as [|x r IH]; cbn; auto. inversion Ht as [|? ? (_ & Hw) ?]; subst.
+    unfold unstarted_user at 1. rewrite Hw, Bool.andb_true_r. rewrite IH; auto. }
+  rewrite count_user_cons. cbn [filter]. rewrite Hr. unfold unstarted_user, count_user.
+  destruct (e_wip e), (e_user e); cbn [andb negb length]; lia.
+Qed.
+
+(* what a drop request does, on the abstract queue *)
+Lemma a_drop_spec : forall a w, K a ->
+  match snd (a_drop a w) with
+  | None => fst (a_drop a w) = a
+  | Some txt =>
+    exists b t af, a_q a = b ++ t :: af /\ txt = e_data t /\ e_user t = true /\
+      In (mkL t (Dropped (a_connected a))) (a_log (fst (a_drop a w))) /\
+      (a_connected a = true -> e_wip t = false) /\
+      (a_q (fst (a_drop a w)) = b ++ af \/
+       exists x af', af = x :: af' /\ e_link x = Some (e_id t) /\ e_owner x = OwSmLib /\ e_data x = req_ack /\
+                     e_wip x = false /\ e_sent x = 0%nat /\ a_q (fst (a_drop a w)) = b ++ af')
+  end.
+Proof.
+  intros a w HK.
+  assert (Hreg : match snd (a_drop_regular a w) with
+                 | None => fst (a_drop_regular a w) = a
+                 | Some txt => exists b t af, a_q a = b ++ t :: af /\ txt = e_data t /\ e_user t = true /\
+                     In (mkL t (Dropped (a_connected a))) (a_log (fst (a_drop_regular a w))) /\
+                     (a_connected a = true -> e_wip t = false) /\
+                     (a_q (fst (a_drop_regular a w)) = b ++ af \/
+                      exists x af', af = x :: af' /\ e_link x = Some (e_id t) /\ e_owner x = OwSmLib /\
+                        e_data x = req_ack /\ e_wip x = false /\ e_sent x = 0%nat /\
+                        a_q (fst (a_drop_regular a w)) = b ++ af')
+                 end).
+  { unfold a_drop_regular. destruct (a_target (a_q a) (a_connected a) w) as [[[b t] af]|] eqn:Et; [|reflexivity].
+    destruct (a_target_spec _ _ _ _ _ _ Et) as (Hl & Hu & Hw).
+    pose proof HK as HK0. unfold K in HK. rewrite Hl in HK.
+    assert (Hwt : a_connected a = true -> e_wip t = false).
+    { intros Hc. destruct b as [|hd b']; auto. eapply tail_untouched; eauto. congruence. }
+    destruct (filter_split _ _ _ _ (k_queue _ _ _ _ HK)) as (L1 & L2 & Hlog & _ & _).
+    assert (Hin1 : forall log', NoDup (map lid log') -> In (mkL t Queued) log' \/ (exists s, In (mkL t s) log') ->
+                   True) by auto.
+    unfold a_drop_at. destruct af as [|x af'].
+    - cbn [snd fst a_q a_log]. exists b, t, []. repeat split; auto.
+      rewrite Hlog. rewrite (log_set_at L1 t Queued L2 t) by (rewrite <- Hlog; apply HK; auto).
+      apply in_or_app. right. left. reflexivity.
+    - destruct (opt_eqb (e_link x) (Some (e_id t))) eqn:El.
+      + cbn [snd fst a_q a_log]. exists b, t, (x :: af'). repeat split; auto.
+        * assert (HK1 : Kc ((b ++ [t]) ++ af') (log_set (a_log a) x (Dropped (a_connected a))) (a_wire a) (a_next a)).
+          { apply Kc_drop. - rewrite <- app_assoc. exact HK.
+            - intros _. eapply (tail_untouched (b ++ [t]) x af'); [rewrite <- app_assoc; exact HK|]. destruct b; discriminate. }
+          rewrite <- app_assoc in HK1. cbn [app] in HK1.
+          destruct (filter_split _ _ _ _ (k_queue _ _ _ _ HK1)) as (M1 & M2 & Hlog1 & _ & _).
+          rewrite Hlog1. rewrite (log_set_at M1 t Queued M2 t) by (rewrite <- Hlog1; apply HK1; auto).
+          apply in_or_app. right. left. reflexivity.
+        * right. exists x, af'.
+          assert (Hx : e_sent x = 0%nat /\ e_wip x = false).
+          { eapply (tail_untouched (b ++ [t]) x af'); [rewrite <- app_assoc; exact HK|]. destruct b; discriminate. }
+          assert (Hlx : e_link x = Some (e_id t)).
+          { destruct (e_link x) as [y|]; cbn in El; [|discriminate]. apply Nat.eqb_eq in El. congruence. }
+          assert (Hinx : In (mkL x Queued) (a_log a)).
+          { eapply queued_in_log; [apply HK|]. apply in_or_app. right. right. left. reflexivity. }
+          pose proof (k_good _ _ _ _ HK) as Hg. rewrite Forall_forall in Hg. destruct (Hg _ Hinx) as (_ & _ & Hg3).
+          cbn in Hg3. destruct Hg3 as [Ho Hd]; [congruence|].
+          repeat split; auto; tauto.
+      + cbn [snd fst a_q a_log]. exists b, t, (x :: af'). repeat split; auto.
+        rewrite Hlog. rewrite (log_set_at L1 t Queued L2 t) by (rewrite <- Hlog; apply HK; auto).
+        apply in_or_app. right. left. reflexivity. }
+  unfold a_drop. destruct (a_q a) as [|e [|e2 r]] eqn:Eq; auto.
+  destruct (e_wip e && a_connected a); auto. destruct (negb (e_user e)); auto.
+Qed.
+
+Lemma K_dropped_not_on_wire : forall a l, K a -> In l (a_log a) -> l_status l = Dropped true ->
+  ~ on_wire (lid l) (a_wire a).
+Proof.
+  intros a l HK Hl Hs. pose proof (k_good _ _ _ _ HK) as Hg. rewrite Forall_forall in Hg.
+  destruct (Hg _ Hl) as (_ & Hg2 & _). eapply untouched_not_on_wire; eauto. congruence.
+Qed.
